@@ -72,16 +72,32 @@ Fixpoint centred (x : fr) : bool :=
   | Sup _ r => centred r          (* a superposed frame has the centroid of its reference *)
   | _ => false
   end.
+(* centring forgets any earlier translation of the whole frame *)
+Fixpoint strip_shift (x : fr) : fr :=
+  match x with
+  | Cen y | CenM _ y => strip_shift y
+  | _ => x
+  end.
+(* an atom subset of a subset / of one part of a stack is a subset of that; the full subset is the frame itself *)
+Fixpoint push_sub (idx : list nat) (a : fr) : fr :=
+  match a with
+  | Sub jdx z => push_sub (map (fun i => nth i jdx 0) idx) z
+  | Stk p q =>
+    if forallb (fun i => i <? width p) idx then push_sub idx p
+    else if forallb (fun i => width p <=? i) idx then push_sub (map (fun i => i - width p) idx) q
+    else Sub idx a
+  | _ => if list_eqb Nat.eqb idx (seq 0 (width a)) then a else Sub idx a
+  end.
+Definition origin1 : fr := Cen (Raw 0 0 1).     (* a centred one-atom frame: the origin, whatever it came from *)
 Fixpoint norm (x : fr) : fr :=
   match x with
   | Raw _ _ _ => x
-  | Sub idx y => let y' := norm y in if list_eqb Nat.eqb idx (seq 0 (width y')) then y' else Sub idx y'
-  | Cen y => let y' := norm y in if centred y' then y' else Cen y'            (* centring a centred frame *)
+  | Sub idx y => push_sub idx (norm y)
+  | Cen y => let y' := norm y in
+             if Nat.eqb (width y') 1 then origin1
+             else if centred y' then y' else Cen (strip_shift y')     (* centring a centred / shifted frame *)
   | CenM ks y => let y' := norm y in
-                 match y' with
-                 | CenM ks' _ => if list_eqb Nat.eqb ks ks' then y' else CenM ks y'     (* mass-centring twice *)
-                 | _ => CenM ks y'
-                 end
+                 if Nat.eqb (width y') 1 then origin1 else CenM ks (strip_shift y')   (* mass-centring a shifted frame *)
   | Sup y r => let y' := norm y in let r' := norm r in
                if fr_eqb y' r' then r'                                   (* a frame superposed on itself stays where it is *)
                else match y' with
@@ -90,7 +106,9 @@ Fixpoint norm (x : fr) : fr :=
                     end
   | Stk y z => Stk (norm y) (norm z)
   end.
-Definition fr_same (a b : fr) : bool := fr_eqb (norm a) (norm b).
+(* frames without atoms are all equal *)
+Definition norm0 (x : fr) : fr := if Nat.eqb (width x) 0 then Raw 0 0 0 else norm x.
+Definition fr_same (a b : fr) : bool := fr_eqb (norm0 a) (norm0 b).
 
 (* ------------------------------------------------------------------ arrays *)
 (* a_f: the array is a transposed (Fortran-ordered) 2-d array with more than one row, as the unitcell_vectors setter
@@ -196,7 +214,8 @@ Definition key_positions (n : nat) (k : key) : err + (list nat * kshape) :=
       | Some idx => inr (idx, KsView (match c with None => true | Some s => (s =? 1)%Z end || (length idx <=? 1)))
       end
   | KList l => match norm_indices n l with Some idx => inr (idx, KsFancy) | None => inl EIndex end
-  | KMask m => if Nat.eqb (length m) n then inr (mask_positions 0 m, KsFancy) else inl EIndex
+  | KMask m => (* numpy accepts an EMPTY boolean index on an axis of any length (it selects nothing) *)
+               if Nat.eqb (length m) n || Nat.eqb (length m) 0 then inr (mask_positions 0 m, KsFancy) else inl EIndex
   end.
 
 (* ------------------------------------------------------------------ allocation *)
